@@ -661,6 +661,10 @@ func (w *Worker) idx64(v Value, typ types.Type) *term.Term {
 	if !ok {
 		panic(pathAbort{"unsupported", "index is " + describe(v)})
 	}
+	if isIntT(t) {
+		// a mathematical integer used as an index or length: split into its concrete values
+		return w.TF.Const(64, w.Concretize(t, "integer used as index", 64))
+	}
 	if t.W < 64 {
 		// index operands may be of any integer type; negative values are caught as huge unsigned
 		if _, signed, ok := intInfo(typ); ok && !signed {
